@@ -319,15 +319,20 @@ def _l2d_stack_as_committed(a, ref, n, r1):
     except Exception:  # noqa: BLE001
         return True
     want = (list(zip([tuple(p) for p in rc[0]], rc[1])) + list(ref._stack.items()))
-    seen, uniq = set(), []
-    for p, v in want:
-        if p not in seen:
-            seen.add(p)
-            uniq.append((p, float(v)))
+    # (OrderedDict(zip(points[:stack_size], improvements)): cut FIRST, then a repeated point keeps its first place and takes the
+    # last value)
+    od = {}
+    for p, v in want[: a.stack_size]:
+        od[p] = float(v)
+    uniq = list(od.items())
     got = [(tuple(p), float(v)) for p, v in a._stack.items()]
     if any(v != v for _, v in got + uniq) or any(float(v) != float(v) for v in list(r1[1])):
         return True  # nan losses (degenerate triangles): argmax over nan is not a function of the state worth modelling
-    return got == uniq[: a.stack_size] and L.canon(rc) == L.canon(r1)
+    if L.canon(rc) != L.canon(r1):
+        # the deep copy did not reproduce the call (copy.deepcopy goes through __getstate__/__setstate__ and re-initialises
+        # the learner: caches differ): no verdict from this reference
+        return True
+    return got == uniq[: a.stack_size]
 
 
 def _stacks(kn, l):
